@@ -156,6 +156,9 @@ def run_live(desc, out):
             r = simgen.mk_rng(desc["seed"], desc["idx"] * 1000 + rec["n"], 5)
             if r.random() < 0.08:
                 return {"raise_": live.API_ERRORS["APIError"]}
+            if rec["kind"] != "REPLACE" and r.random() < 0.07:
+                # the whole request fails at the exchange (report-level error code): every instruction is reported failed
+                return {"outcomes": [{"status": "FAILURE", "error": "ERROR_IN_ORDER" if rec["kind"] == "PLACE" else "BET_ACTION_ERROR"} for _ in rec["instructions"]], "report_error": r.choice(("ERROR_IN_MATCHER", "SERVICE_UNAVAILABLE", "BET_ACTION_ERROR"))}
             if rec["kind"] == "PLACE":
                 return {"outcomes": [r.choice(({"status": "SUCCESS"}, {"status": "SUCCESS"}, {"status": "FAILURE", "error": "ERROR_IN_ORDER"}, {"status": "TIMEOUT", "exists": True})) for _ in rec["instructions"]]}
             return {"outcomes": [r.choice(({"status": "SUCCESS"}, {"status": "FAILURE", "error": "BET_ACTION_ERROR"}, {"status": "TIMEOUT"})) for _ in rec["instructions"]]}
